@@ -4,7 +4,7 @@ import json
 
 from .. import config, scen
 from .. import alphabet as A
-from ..ref import jwk as rjwk, jws as rjws, b64, headers as RH
+from ..ref import jwk as rjwk, jws as rjws, jwe as rjwe, b64, headers as RH
 from .common import Outcome, Part, viol, call
 from . import c16
 
@@ -90,6 +90,8 @@ def h_jws(ctx):
     direction = ctx.choose("direction", ["produce", "consume"])
     strict = ctx.choose("strict", [True, False])
     extra = ctx.choose("caller_registered", EXTRAS if config.thorough() else EXTRAS[:5])
+    # a caller that configures a registry may also pass its allow-list as algorithms= (the registry still decides header validation)
+    also_algs = (extra is not None or not strict) and ctx.choose("registry_given", ["registry=", "registry= and algorithms="]) != "registry="
     json_path = path in ("flattened", "general", "7797-flattened")
     prot = {"alg": alg, "typ": "JOSE"}
     unprot = {} if json_path else None
@@ -111,6 +113,7 @@ def h_jws(ctx):
     payload = b"hello-World_7"
     jwk = scen.key(kind)
     reg = mk_registry("jws", path, strict, extra, [alg])
+    kw = {"registry": reg, "algorithms": [alg]} if also_algs else {"registry": reg}
     b64_aware = path.startswith("7797")
     # the unencoded-payload code path is only taken when b64 is literally false
     seven = path.startswith("7797")
@@ -121,15 +124,15 @@ def h_jws(ctx):
         if not p:
             member = {"header": u}
         if path == "compact":
-            r = call(jws.serialize_compact, p, payload, key, registry=reg)
+            r = call(jws.serialize_compact, p, payload, key, **kw)
         elif path == "7797-compact":
-            r = call(rfc7797.serialize_compact, p, payload, key, registry=reg)
+            r = call(rfc7797.serialize_compact, p, payload, key, **kw)
         elif path == "flattened":
-            r = call(jws.serialize_json, member, payload, key, registry=reg)
+            r = call(jws.serialize_json, member, payload, key, **kw)
         elif path == "general":
-            r = call(jws.serialize_json, [member], payload, key, registry=reg)
+            r = call(jws.serialize_json, [member], payload, key, **kw)
         else:
-            r = call(rfc7797.serialize_json, member, payload, key, registry=reg)
+            r = call(rfc7797.serialize_json, member, payload, key, **kw)
     else:
         key = A.jkey(jwk, "dict", private=(jwk["kty"] == "oct"))
         use_b64 = not (seven and prot.get("b64") is False)
@@ -145,17 +148,17 @@ def h_jws(ctx):
 
         def run():
             if path == "compact":
-                return jws.deserialize_compact(tok, key, registry=reg)
+                return jws.deserialize_compact(tok, key, **kw)
             if path == "7797-compact":
-                return rfc7797.deserialize_compact(tok, key, registry=reg)
+                return rfc7797.deserialize_compact(tok, key, **kw)
             if path in ("flattened", "general"):
-                return jws.deserialize_json(tok, key, registry=reg)
-            return rfc7797.deserialize_json(tok, key, registry=reg)
+                return jws.deserialize_json(tok, key, **kw)
+            return rfc7797.deserialize_json(tok, key, **kw)
         r = call(run)
     extra_t = {n: (TMAP[t], req) for n, (t, req) in (extra or {}).items()}
     reasons = RH.invalid_reasons(merged, "jws", direction == "consume", strict, extra_t, b64_aware)
     vs = []
-    what = f"{direction} {path} strict={strict} registered={extra}: {desc}: header {merged!r}"
+    what = f"{direction} {path} strict={strict} registered={extra}{' (registry= and algorithms=)' if also_algs else ''}: {desc}: header {merged!r}"
     if r.ok and reasons:
         vs.append(viol(f"JWS {direction} accepts an invalid header [{reasons[0].split(' has ')[0] if ' has ' in reasons[0] else reasons[0]}] ({'7797' if seven else 'jws'} {'JSON' if json_path else 'compact'})",
                        f"{what}: {reasons}"))
@@ -163,7 +166,7 @@ def h_jws(ctx):
         vs.append(viol(f"JWS {direction} rejects a valid header carrying a caller-registered parameter" if extra else f"JWS {direction} rejects the valid base header",
                        f"{what}: {r.exc!r}"))
     return Outcome(f"{direction}:{'accepted' if r.ok else 'rejected'}:{'valid' if not reasons else 'invalid'}", vs,
-                   nontrivial=(direction, path, strict, repr(extra), repr(merged)))
+                   nontrivial=(direction, path, strict, repr(extra), repr(merged), also_algs))
 
 
 JWE_SEEDS = [("dir", "oct16", "A128GCM"), ("A128KW", "oct16", "A128CBC-HS256"), ("ECDH-ES", "P-256", "A128GCM"), ("ECDH-ES+A128KW", "X25519", "A128GCM"),
@@ -230,7 +233,57 @@ def h_jwe(ctx):
                    nontrivial=(direction, alg, form, strict, repr(extra), repr(merged)))
 
 
+def h_jwe_recipients(ctx):
+    """General JSON with two recipients, one of which carries a per-recipient header with one substituted member: the header of
+    EVERY recipient is validated, whatever the recipient rule (all / any) of the registry."""
+    from joserfc import jwe
+    from joserfc.jwk import KeySet
+    from .c02 import JTok
+    pair = ctx.choose("recipients", [("A128KW", "A128KW"), ("A128KW", "A128GCMKW"), ("A128GCMKW", "A128KW")])
+    j = ctx.choose("entry_with_the_edit", [0, 1])
+    verify_all = ctx.choose("verify_all_recipients", [True, False])
+    strict = ctx.choose("strict", [True, False])
+    extra = ctx.choose("caller_registered", [EXTRAS[0], EXTRAS[2]])
+    name = ctx.choose("member", NAMES)
+    v = ctx.choose("value", ["<deleted>"] + vals())
+    recs, privs = [], []
+    for i, a in enumerate(pair):
+        jwk = scen.key("oct16", i + 1)
+        recs.append({"jwk": jwk, "header": {"alg": a, "kid": f"r{i}"}})
+        privs.append(A.jkey({**jwk, "kid": f"r{i}"}, "dict"))
+    prot = {"enc": "A128GCM"}
+    if extra:
+        prot["foo"] = 7
+    tok = JTok("general", rjwe.encrypt(prot, b"secret", recs, form="general", rand=rjwe.Drbg(repr(pair).encode())))
+    h = tok.recipients[j]["header"]
+    if name in prot or (v == "<deleted>" and name not in h):
+        return Outcome("noop", [], nontrivial=None)     # protected members are the business of the single-recipient part
+    if v == "<deleted>":
+        h.pop(name)
+    else:
+        h[name] = v
+    merged = {**prot, **h}
+    if isinstance(merged.get("p2c"), int) and not isinstance(merged.get("p2c"), bool) and 10 ** 5 < merged["p2c"] < 2 ** 31:
+        return Outcome("out-of-scope", [], nontrivial=None)
+    extra_t = {n: (TMAP[ty], req) for n, (ty, req) in (extra or {}).items()}
+    reasons = RH.invalid_reasons(merged, "jwe", True, strict, extra_t, False)
+    hr = None
+    if extra:
+        from joserfc.registry import HeaderParameter
+        hr = {n: HeaderParameter("caller registered", t, req) for n, (t, req) in extra.items()}
+    algs = ["A128KW", "A128GCMKW", "A128GCM"] + ([merged["alg"]] if isinstance(merged.get("alg"), str) and merged["alg"] in scen.JWE_ALL else [])
+    reg = jwe.JWERegistry(header_registry=hr, algorithms=algs, strict_check_header=strict, verify_all_recipients=verify_all)
+    r = call(lambda: bytes(jwe.decrypt_json(tok.wire(), KeySet(privs), registry=reg).plaintext))
+    vs = []
+    what = f"general JSON {pair}, entry {j} header {h!r}, strict={strict} verify_all_recipients={verify_all} registered={extra}"
+    if r.ok and reasons:
+        vs.append(viol(f"JWE consume accepts an invalid per-recipient header of one of several recipients [{reasons[0].split(' has ')[0] if ' has ' in reasons[0] else reasons[0]}] (verify_all_recipients={verify_all})",
+                       f"{what}: {reasons}"))
+    return Outcome(f"multi:{'accepted' if r.ok else 'rejected'}:{'valid' if not reasons else 'invalid'}", vs, nontrivial=(pair, j, verify_all, strict, repr(extra), name, repr(v)))
+
+
 PARTS = [
     Part("jws-headers", h_jws, bound={"quick": 1, "thorough": 2}, split_depth=4, budget={"quick": 120, "thorough": 1800}),
     Part("jwe-headers", h_jwe, bound={"quick": 1, "thorough": 1}, split_depth=4, budget={"quick": 120, "thorough": 1800}),
+    Part("jwe-several-recipients", h_jwe_recipients, split_depth=4),
 ]
